@@ -399,6 +399,20 @@ def run(ctx):
         vals_ = {fmt(W.expand(W.ev(cp).call_args(cbb)[gr[2][0][2] - 1])) for (cp, cbb) in P.callers(rfn.path)}
         cands = [W.expand(W.ev(cp).call_args(cbb)[gr[2][0][2] - 1]) for (cp, cbb) in P.callers(rfn.path)]
         okgr = bool(cands) and all(is_call(values.strip_payload(c)) and values.strip_payload(c)[1].endswith("fault_percentage") for c in cands)
+    # "the failing share is p percent": every transformation the injector can pick must make the reply fail for every batch.  The two of the
+    # reference tree do (a random 64-byte SIG; a random reordering of at least five tags); whether another one does is not decided here, so a
+    # pathology that is neither is reported (C07's pathology rule recognises exactly these two shapes).
+    import importlib as _il
+    from framework import Ctx as _Ctx
+    c7 = _il.import_module("rules.C07")
+    sub7 = _Ctx("C07", P, ctx.repo, "quick", ctx.feature)
+    c7.run(sub7)
+    path7 = [i for i in sub7.instances if "/grease/pathology" in i["key"]]
+    bad7 = [i for i in path7 if not i["ok"]]
+    ctx.check("grease-gating", "every-pathology-invalidates-the-reply(C07)", not bad7 and len(path7) >= 2,
+              "add_errors picks among %d transformations, each known to make the reply fail verification" % len(path7),
+              "fault injection can pick a transformation that is not known to invalidate the reply for every batch (the failing share can fall below the configured percentage): " +
+              (bad7[0]["detail"] if bad7 else "pathologies not found"), bad7[0].get("loc") if bad7 else None)
     ctx.check("grease-gating", "Responder::new/grease-from-config-fault-percentage", okgr, "grease = Grease::new(config.fault_percentage())",
               "Responder's fault injector is %s" % fmt(gr), rfn.loc(rbb, ridx))
     NDI = "roughenough::message::RtMessage::new_deliberately_invalid"
